@@ -250,6 +250,32 @@ def main(run, tier):
                     run.failed('rt.fragments.multi', 'E4/bounded', '%s | %s ++ %s' % (cn, a, b),
                                dict(sources=[a, '\n\n   ' + b], config=cn, problem=why), observed=why,
                                required='fragment names the right source file and position', replayed=True)
+    # files combined after being read through io.read (which names the tree after its stream), identical texts included
+    cio = importlib.import_module('calmjs.parse.io')
+    import io as pyio
+
+    class Named(pyio.StringIO):
+        def __init__(self, text, name):
+            pyio.StringIO.__init__(self, text)
+            self.name = name
+    for a, b in [('var a = 1;\nf(a);', 'var a = 1;\nf(a);'), ('x;', 'x;'), ('a;', 'b;'), (gen.EXTRA_PROGRAMS[1], gen.EXTRA_PROGRAMS[1])]:
+        for cn, mkr in cfgs:
+            n += 1
+            ok += 1
+            ta = cio.read(es5.parse, Named(a, 'lib/a.js'))
+            tb = cio.read(es5.parse, Named(b, 'vendor/b.js'))
+            frags = list(unparsers.Unparser(rules=mkr())(type(ta)([ta, tb])))
+            named = [f.source for f in frags if f.source is not None and f.lineno and f.colno]
+            why = None
+            if (ta.sourcepath, tb.sourcepath) != ('lib/a.js', 'vendor/b.js'):
+                why = 'trees read from lib/a.js and vendor/b.js are named %r and %r' % (ta.sourcepath, tb.sourcepath)
+            elif not named or set(named) != {'lib/a.js', 'vendor/b.js'} or named != sorted(named):
+                why = 'the positioned fragments of lib/a.js followed by vendor/b.js name their sources as %r' % (sorted(set(named)) if named == sorted(named) else named[:12],)
+            if why:
+                nread = locals().get('nread', 0) + 1
+                if nread <= 5:
+                    run.failed('rt.fragments.read', 'E4/bounded', '%s | %s ++ %s' % (cn, a, b), dict(sources=[a, b], config=cn, problem=why), observed=why,
+                               required='every fragment names the file its text was read from', replayed=True)
     run.bounded_check('rt.fragments', 'generated programs x %d layouts x printer configurations (quick: one config per '
                       'program, rotating) + 36 two-file combinations x 5 configurations' % len(seps), n, ok)
     run.trust('C11 (node and token-map positions are those of the slots)', 'ply.yacc tracking contract',
